@@ -648,26 +648,41 @@ def vmap_rule(ctx, method, rule="ALG-Vmap"):
     if method == "simulate":
         ck.eq("in_axes = self.in_axes.value", inax or NONE, val)
     else:
-        nonec = None
+        seen_none = False
+        isint = call(N("builtins.isinstance"), val, N("builtins.int"))
+        nargs = call(N("builtins.len"), ARGS)
         for asg, leaf in all_cases(inax if inax is not None else NONE):
-            pol = None
+            is_none = is_int = None
             for c, v in asg.items():
                 rr = none_test(c, val)
-                if rr is None:
+                if rr is not None:
+                    is_none = (rr == v)
+                elif c == isint:
+                    is_int = v
+                elif is_call(c, name="builtins.isinstance") and c[2] and c[2][0] == val:
+                    pass  # further normalisation of list/tuple forms
+                else:
                     raise AnalysisError(f"{construct}: unrecognised in_axes condition {short(c, ev)}")
-                pol = (rr == v)
-            if pol is None:
+            if is_none is None:
                 raise AnalysisError(f"{construct}: in_axes not split on `self.in_axes.value is None`")
-            if pol:
-                want = ("tuple", tuple(axes) + (("star", ("binop", "*", ("tuple", (NONE,)), call(N("builtins.len"), ARGS))),))
-                got = leaf
-                # accept (prefix) + (None,) * len(args)
-                if not (leaf[0] == "binop" and leaf[1] == "+" and leaf[2] == ("tuple", tuple(axes))
-                        and leaf[3] == ("binop", "*", ("tuple", (NONE,)), call(N("builtins.len"), ARGS))):
-                    ck.fail("in_axes (callee in_axes None): prefix + (None,)*len(args)", f"expected prefix {short(('tuple', tuple(axes)), ev)}, found {short(leaf, ev)}")
+            if not (leaf[0] == "binop" and leaf[1] == "+" and leaf[2] == ("tuple", tuple(axes))):
+                ck.fail("in_axes = method prefix + callee in_axes", f"expected prefix {short(('tuple', tuple(axes)), ev)}, found {short(leaf, ev)}")
+                continue
+            rest = leaf[3]
+            if is_none:
+                seen_none = True
+                if is_int:
+                    continue  # infeasible combination
+                if rest != ("binop", "*", ("tuple", (NONE,)), nargs):
+                    ck.fail("callee in_axes None → (None,)*len(args)", f"found {short(rest, ev)}")
+            elif is_int:
+                if rest != ("binop", "*", ("tuple", (val,)), nargs):
+                    ck.fail("callee in_axes int → (in_axes,)*len(args)", f"found {short(rest, ev)}")
             else:
-                if not (leaf[0] == "binop" and leaf[1] == "+" and leaf[2] == ("tuple", tuple(axes)) and leaf[3] == val):
-                    ck.fail("in_axes: prefix + self.in_axes.value", f"expected prefix {short(('tuple', tuple(axes)), ev)}, found {short(leaf, ev)}")
+                if rest not in (val, call(N("builtins.tuple"), val)):
+                    ck.fail("callee in_axes tuple/list → its own entries", f"found {short(rest, ev)}")
+        if not seen_none:
+            ck.fail("callee in_axes None handled", "no None case")
     for opt in ("axis_size", "axis_name", "spmd_axis_name"):
         got = ev.kwget(rec["opts"], opt)
         want = ("attr", ("attr", SELF, opt), "value")
